@@ -577,7 +577,13 @@ func runGuardedBy(p *Prog, gs *guardSpec) ([]guardedAccess, *lockAnalysis, []str
 			ga.Fn = fn
 			ga.Held = st.get(ga.Lock)
 			ga.Entry = entry
-			if why, ok := gs.Exempt[fnKey(fn)]; ok {
+			// an exemption of a function covers the function literals written inside it only when they are applied in place
+			// (the form a helper with deferred calls takes after it was spliced back: still the same goroutine, the same moment)
+			exKey := fnKey(fn)
+			for pf := fn; pf.Parent() != nil && appliedInPlace(pf); pf = pf.Parent() {
+				exKey = fnKey(pf.Parent())
+			}
+			if why, ok := gs.Exempt[exKey]; ok {
 				ga.Exempt = why
 			}
 			accs = append(accs, ga)
